@@ -234,6 +234,39 @@ def syncOK (s : State) : Bool :=
   s.vPods.vals.all (fun p => !(p.wants && p.phase == .running) || (keyOf p).pool == "" ||
     p.ips.all (fun ip => (s.alloc.get ip).isSome))
 
+/-- side condition of `markTerminating` (UpdatePod runs `syncPodIP` for a Running pod): the pod carries no pool
+    annotation or every address of its binding annotation is allocated - what C04 proves for every live bound pod -/
+def termOK (s : State) (ns name : String) : Bool :=
+  match s.pods.get (ns, name) with
+  | none => true
+  | some p => (keyOf p).pool == "" || p.ips.all (fun ip => (s.alloc.get ip).isSome)
+
+theorem markTerminating_q (F : Plugin.Facts) (s : State) (ns name : String) (fault : Nat) (h : termOK s ns name = true) :
+    Quiet7 s (step F s (.markTerminating ns name fault)).1 := by
+  dsimp only [step]
+  cases hp : Tbl.get s.pods (ns, name) with
+  | none => exact Quiet7.refl s
+  | some p =>
+    dsimp only
+    split
+    · exact Quiet7.refl s
+    · split
+      · exact Quiet7.of_eq rfl rfl rfl rfl
+      · split
+        · exact Quiet7.of_eq rfl rfl rfl rfl
+        · split
+          · have q0 : Quiet7 s (withFaults { s with pods := s.pods.set (ns, name) { p with terminating := true } } fault 0) :=
+              Quiet7.of_eq rfl rfl rfl rfl
+            refine q0.trans (syncIPs_q { p with terminating := true } p.ips _ ?_).1
+            unfold termOK at h
+            have hp' : s.pods.get (ns, name) = some p := hp
+            rw [hp'] at h
+            simp only [Bool.or_eq_true, beq_iff_eq, List.all_eq_true] at h
+            rcases h with h | h
+            · exact Or.inl h
+            · exact Or.inr h
+          · exact Quiet7.of_eq rfl rfl rfl rfl
+
 theorem syncPods_q : ∀ (l : List Pod) (s : State),
     (∀ p, p ∈ l → (p.wants && p.phase == .running) = true →
       (keyOf p).pool = "" ∨ ∀ ip, ip ∈ p.ips → (Tbl.get s.alloc ip).isSome = true) →
